@@ -231,3 +231,10 @@ def _has_pardir(ex, s):
     from .intrinsics_lib import P_pardir
 
     return SBool(P_pardir(ex.to_str_term(s)))
+
+
+# -- ghost call trace -----------------------------------------------------------------
+@spec("calls", None)
+def _calls(ex, name):
+    """Number of opaque (dynamically dispatched) calls of method `name` on this path."""
+    return sum(1 for e in ex.trace if e[0] == "call" and e[1] == name)
